@@ -2,7 +2,8 @@ package main
 
 // Phase `captured`: run real handshakes of both stacks over in-memory transports under several
 // configurations (plain, ALPN + SNI + trusted CA indication, client authentication with the ECDHE
-// suites, session resumption, custom curve preferences, small PMTU = fragmented dtlcp flights),
+// suites, session resumption, custom curve preferences, ServerName with several trailing dots / an
+// IP literal, small PMTU = fragmented dtlcp flights),
 // cut the plaintext handshake messages out of what each side sent (everything before the first
 // ChangeCipherSpec; Finished is encrypted and not captured) and run each through the stack's own
 // unmarshal as an `op=cap` case.  The oracle requires every captured message to be a canonical
@@ -12,6 +13,7 @@ import (
 	"fmt"
 	"os"
 	"sort"
+	"strings"
 	"time"
 
 	"gitee.com/Trisia/gotlcp/dtlcp"
@@ -140,10 +142,19 @@ func (d *driver) captured() {
 			d.t.Line(fmt.Sprintf("stack=%s kind=%s op=cap data=%x", stack, kind, m), runDec(stack, kind, m))
 		}
 	}
+	// a failed handshake is reported after everything that WAS sent has been judged: when the
+	// failure comes from an undecodable message, the captured message is the replayable input
+	var failures []string
 	fail := func(what string, r pair.Result) {
-		fmt.Fprintln(os.Stderr, "captured: handshake failed:", what, r.String())
-		os.Exit(3)
+		failures = append(failures, what+" "+r.String())
 	}
+	defer func() {
+		if len(failures) > 0 {
+			d.t.Close()
+			fmt.Fprintln(os.Stderr, "captured: handshake failed:", strings.Join(failures, "; "))
+			os.Exit(3)
+		}
+	}()
 
 	// ---------------- TLCP
 	tcfgs := map[string]func() (*tlcp.Config, *tlcp.Config){
@@ -178,6 +189,19 @@ func (d *driver) captured() {
 			c.CurvePreferences = []tlcp.CurveID{tlcp.CurveSM2, 23, 24}
 			return c, sv
 		},
+		// ServerName forms the client must normalise before they reach the server's decoder
+		// (several trailing dots; an IP literal = no server_name at all). The name check of the
+		// certificate is not the subject here.
+		"sni-dots": func() (*tlcp.Config, *tlcp.Config) {
+			c, sv := pair.TClient(), pair.TServer()
+			c.ServerName, c.InsecureSkipVerify = "test.example...", true
+			return c, sv
+		},
+		"sni-ip": func() (*tlcp.Config, *tlcp.Config) {
+			c, sv := pair.TClient(), pair.TServer()
+			c.ServerName, c.InsecureSkipVerify = "[fe80::1%eth0]", true
+			return c, sv
+		},
 	}
 	var names []string
 	for n := range tcfgs {
@@ -187,11 +211,11 @@ func (d *driver) captured() {
 	for _, n := range names {
 		c, sv := tcfgs[n]()
 		_, _, ce, se, r := pair.TLCP(c, sv, nil)
+		emit("tlcp", tlcpMessages(ce.SentBytes()))
+		emit("tlcp", tlcpMessages(se.SentBytes()))
 		if !r.OK() {
 			fail("tlcp "+n, r)
 		}
-		emit("tlcp", tlcpMessages(ce.SentBytes()))
-		emit("tlcp", tlcpMessages(se.SentBytes()))
 	}
 	{ // resumption: second handshake offers the cached session, the server echoes its id
 		c, sv := pair.TClient(), pair.TServer()
@@ -199,11 +223,11 @@ func (d *driver) captured() {
 		sv.SessionCache = tlcp.NewLRUSessionCache(4)
 		for i := 0; i < 2; i++ {
 			_, _, ce, se, r := pair.TLCP(c, sv, func(ce, se *pair.StreamEnd) { ce.SetAddrs("c:1", "srv:443"); se.SetAddrs("srv:443", "c:1") })
+			emit("tlcp", tlcpMessages(ce.SentBytes()))
+			emit("tlcp", tlcpMessages(se.SentBytes()))
 			if !r.OK() {
 				fail("tlcp resume", r)
 			}
-			emit("tlcp", tlcpMessages(ce.SentBytes()))
-			emit("tlcp", tlcpMessages(se.SentBytes()))
 		}
 	}
 
@@ -249,6 +273,11 @@ func (d *driver) captured() {
 			sv.ClientCAs = s.Root.Pool
 			return c, sv
 		},
+		"sni-dots": func() (*dtlcp.Config, *dtlcp.Config) {
+			c, sv := pair.DClient(), pair.DServer()
+			c.ServerName, c.InsecureSkipVerify = "test.example..", true
+			return c, sv
+		},
 		"small-pmtu": func() (*dtlcp.Config, *dtlcp.Config) {
 			c, sv := pair.DClient(), pair.DServer()
 			c.PMTU, sv.PMTU = 300, 300
@@ -264,10 +293,10 @@ func (d *driver) captured() {
 	for _, n := range names {
 		c, sv := dcfgs[n]()
 		_, _, ce, se, r := pair.DTLCP(c, sv, nil)
+		emit("dtlcp", dtlcpMessages(ce.SentCopy()))
+		emit("dtlcp", dtlcpMessages(se.SentCopy()))
 		if !r.OK() {
 			fail("dtlcp "+n, r)
 		}
-		emit("dtlcp", dtlcpMessages(ce.SentCopy()))
-		emit("dtlcp", dtlcpMessages(se.SentCopy()))
 	}
 }
